@@ -14,7 +14,7 @@ func init() {
 		ID:    "C07",
 		Title: "Every query returns exactly the documents its meaning selects",
 		Rules: []string{"C07.R1", "C07.R2", "C07.R3", "C07.R4", "C07.R5", "C07.R6", "C06.R5"},
-		Decides: "two structural conditions every correct searcher stack needs (narrow claim): after a DocumentMatch was handed back to the pool, no path uses the same access path or value again (dereference, argument, return, store) before it is overwritten - comparisons with nil or another pointer are not uses; the index-level postings iterators that span several segments return every non-nil posting with its number globalised by the snapshot's offset of the segment it came from, on the Next path and on the Advance path alike; the offsets themselves are cumulative full segment sizes (C06.R5).",
+		Decides: "two structural conditions every correct searcher stack needs (narrow claim): after a DocumentMatch was handed back to the pool, no path uses the same access path or value again (dereference, argument, return, store) before it is overwritten - comparisons with nil or another pointer are not uses; the index-level postings iterators that span several segments return every non-nil posting with its number globalised by the snapshot's offset of the segment it came from, on the Next path and on the Advance path alike; the offsets themselves are cumulative full segment sizes (C06.R5). no loop runs over a cursor list that was emptied on every path to it (pending children are not dropped); a regexp's literal prefix is read only from case-sensitive literal nodes.",
 		NotCovered: "equality of the result set with the query's meaning: conjunction/disjunction/boolean/phrase iterator logic, term expansion, geo arithmetic; aliases of a recycled match held under a different access path.",
 	})
 	registerRule(&RuleInfo{ID: "C07.R1", Title: "a recycled match is never referenced again", Floor: 20, Run: ruleC07R1,
@@ -149,8 +149,12 @@ func ruleC07R2(c *Ctx) {
 				})
 			}
 			var problems []string
-			ex := &Explorer{Fn: fn}
-			ex.OnInstr = func(in ssa.Instruction, st *PState) bool {
+			// helpers of the same iterator type are followed (a shared "set current posting" method)
+			sm := &Summarizer{}
+			sm.Follow = func(f *ssa.Function) bool {
+				return methodRecvNamed(f) == n && f.Name() != "Next" && f.Name() != "Advance"
+			}
+			sm.OnInstr = func(_ *ssa.Function, in ssa.Instruction, st *PState) bool {
 				switch x := in.(type) {
 				case *ssa.Call:
 					cc := x.Common()
@@ -176,6 +180,7 @@ func ruleC07R2(c *Ctx) {
 				}
 				return true
 			}
+			ex := sm.Explorer(fn)
 			ex.OnReturn = func(r *ssa.Return, st *PState) {
 				if len(r.Results) != 2 || st.Eval(r.Results[0]) == TriNo || isNilConst(r.Results[0]) {
 					return
@@ -197,7 +202,7 @@ func ruleC07R2(c *Ctx) {
 				}
 			}
 			ex.Run()
-			if ex.Exceeded {
+			if ex.Exceeded || sm.Exceeded {
 				c.Undecided(key, c.Pos(fn.Pos()), "path exploration did not finish")
 				continue
 			}
